@@ -45,7 +45,9 @@ def build():
     u.fn(W, ['impl WorldExt for World', 'fn create_iter'], ret='r', props='C01', impl_header=IH, key='World::create_iter',
          rules=[('N1', r'-> CreateIter\b', "-> CreateIter<'_>")],
          ensures=[E('borrows_entities', '*r.0 == old(self).ents() && final(self).ents() == *final(r.0)')])
-    u.fn(M, ["impl<'a> Drop for EntityBuilder<'a>", 'fn drop'], props='C02', impl_header="impl<'a> EntityBuilder<'a>", key='EntityBuilder::drop',
+    # C05: an unfinished builder must be retired through the DEFERRED path (so that maintain purges the components attached with
+    # `.with(..)`); an immediate kill without a purge leaves them for the next user of the index
+    u.fn(M, ["impl<'a> Drop for EntityBuilder<'a>", 'fn drop'], props='C02 C05', impl_header="impl<'a> EntityBuilder<'a>", key='EntityBuilder::drop',
          rules=[('N10', r'\.read_resource::<EntitiesRes>\(\)', '.entities_mut()')],
          requires=[E('wf', 'old(self).world.wf()'), E('headroom', 'old(self).world.ents().alloc.headroom_n(2)'),
                    E('own', '!old(self).built ==> old(self).world.abs().current(old(self).entity)')],
